@@ -225,13 +225,38 @@ impl<Kd: K> Interp<Kd> {
 
     fn exec(&mut self, tok: &[&str]) -> String {
         let c = self.c();
-        // a manager handle the client does not own (an earlier call that should have produced it
-        // was skipped): skip
+        // Operands the client does not own (an earlier call that should have produced them was
+        // skipped or removed by the shrinker) or destinations that are in use: skip the call.
+        let dst_pos: &[usize] = match tok[0] {
+            "COFS" => &[1, 2],
+            "AFA" | "AEX" | "AUQ" => &[2],
+            "RT" => &[4],
+            "MUNREF" | "UNREF" | "SFREE" | "ADDVARS" | "ADDNAMED" | "SETNAME" | "NAME" | "N2V" | "COUNTS" | "GC"
+            | "ORDER" | "POOL" | "EXPORT" | "DOT" | "SADD" | "NC" | "SAT" | "SATCOUNT" | "PICK" | "EVAL" | "LEVEL"
+            | "TT" | "FINAL" => &[],
+            _ => &[1],
+        };
         for (i, t) in tok.iter().enumerate().skip(1) {
-            let is_m = t.len() >= 2 && t.starts_with('m') && t[1..].bytes().all(|b| b.is_ascii_digit());
-            let dst = i == 1 && matches!(tok[0], "MNEW" | "MREF" | "CONT");
-            if is_m && !dst && !self.mgrs.contains_key(&slot(t)) {
-                return "SKIP".into();
+            if matches!(tok[0], "ADDNAMED" | "SETNAME" | "N2V") && i >= 2 {
+                break; // names
+            }
+            if matches!(tok[0], "EXPORT") && i == 6 {
+                continue; // diagram name
+            }
+            for part in t.split(',') {
+                let b = part.as_bytes();
+                if b.len() < 2 || !matches!(b[0], b'm' | b'f' | b's') || !b[1..].iter().all(|c| c.is_ascii_digit()) {
+                    continue;
+                }
+                let k = slot(part);
+                let owned = match b[0] {
+                    b'm' => self.mgrs.contains_key(&k),
+                    b'f' => self.funs.contains_key(&k),
+                    _ => self.subs.contains_key(&k),
+                };
+                if owned == dst_pos.contains(&i) {
+                    return "SKIP".into();
+                }
             }
         }
         match tok[0] {
